@@ -1,7 +1,7 @@
 from common import COMMON_TB
 
 CONFIG = {
-    "lean_modules": ["SA.Props.C06"],
+    "lean_modules": ["SA.Props.C06", "SA.Props.C06Par"],
     "level_text": "Theorems over an executable byte-level model of the handshake (chunked transport reader, textproto line / "
                   "MIME-header reading, both line parsers with Go's slicing explicit, SplitField, version negotiation, the "
                   "server's and client's decision trees): C06_admits_only_wellformed, C06_admits_every_wellformed (+ _rendered, "
@@ -12,6 +12,14 @@ CONFIG = {
                   "C06_else_refused, C06_segmentation_independent (+ _client; induction over the chunk list through every "
                   "reader primitive), C06_no_panic_server / _client (all eight slice expressions in range for every line), "
                   "C06_panic_site_inventory (regenerated inventory of index/slice/assert/panic sites equals the modelled one). "
+                  "For handshakes of several peers at the same moment (SA.Props.C06Par): C06_batch_pointwise (+ _client), "
+                  "C06_concurrent_no_panic_server / _client, C06_concurrent_else_refused, C06_concurrent_segmentation_independent, "
+                  "C06_par_op_pointwise (the model is a function of the one connection: a batch is the list of the single results, "
+                  "whatever stands next to a connection, the number of goroutines and of repetitions), with C06_no_hidden_process_state "
+                  "(regenerated inventory of package-level variables) as the static side; tied to the code by the `par` op form: G "
+                  "goroutines released together run independent real NewServerConnection / NewClientConnection calls in a child "
+                  "process, a dead child (Go's unrecoverable `fatal error: concurrent map writes`), an outcome or a written byte "
+                  "(free-text Message header included) different from the same connection alone is the failing input. "
                   "The model is tied to the Go code by running real NewServerConnection / NewClientConnection on a "
                   "chunk-scripted net.Conn and comparing outcome, statuses, headers written, negotiated version and the bytes "
                   "handed to the next layer, each input under >= 5 segmentations.",
@@ -36,7 +44,11 @@ CONFIG = {
             "variants with shuffled header order, truncation at every byte of two well-formed streams, oversized lines "
             "(4000..8193, 65536, 1 MiB; thorough 4 MiB) in value/key/request line/continuation/no newline, CR at the "
             "buffer boundary, random garbage, 1-3 random edits of a valid stream. hs-client: analogous for replies "
-            "(33 status-line forms incl. ParseInt corner cases, Protocol-Version forms, capabilities forms). Every op is "
+            "(33 status-line forms incl. ParseInt corner cases, Protocol-Version forms, capabilities forms). Both: `par <G> <iters> "
+            "op ; op ; ...` batches - every refusal (8 unparsable request lines, 7 foreign methods, version / upgrade refusals, "
+            "truncations; each with its own free-text reason) next to every other, one refusal on 16 connections, sessions with "
+            "different leftovers next to refusals, real StartTLS handshakes next to both, random batches (G 2..36, 50-200 "
+            "iterations; thorough 4x and 30 batches); every member alone before and after the concurrent phase. Every op is "
             "replayed under all-at-once, byte-wise (or 4096/4095/4097-byte reads when large), a cut inside every CRLF, "
             "random cuts and small fixed-size reads; non-trivial = a session was established; distinct = distinct op line",
     "trusted_base": COMMON_TB + [
@@ -46,5 +58,6 @@ CONFIG = {
         "crypto/tls is a parameter of the model (what the handshake reports), exercised with a real in-memory TLS peer"],
     "assumptions": ["net.Conn.Read returns at least one byte or an error (no empty reads)",
                     "writing to a bytes.Buffer never fails (the panic(err) calls in Request.String / Response.String are unreachable)",
-                    "one handshake per connection, sequential"],
+                    "one handshake per connection; connections are handled at the same moment on goroutines of their own (par form); "
+                    "the concurrent drive needs >= 2 CPUs to interleave at arbitrary instructions (GOMAXPROCS is raised to 8)"],
 }
